@@ -681,6 +681,184 @@ def rules(rep, m):
         r7.ok()
 
 
+    # R-C18-8 ------------------------------------------------------------
+    r8 = rep.rule("R-C18-8", "order statistics found by a search have no placeholder result: a result variable that is only "
+                  "assigned under a test inside a search loop starts from a sample of the data (so that 'nothing found' - one "
+                  "sample, or the first sample holding more than the sought share of the weight - still yields a value "
+                  "inside the data range), not from a literal", floor=4)
+    for f in m.funcs.values():
+        if (m.rel(f.file) or "") not in ("src/cmb_dataset.c", "src/cmb_timeseries.c"):
+            continue
+        cx = FuncCtx(m, f)
+        for d in walk(f.body):
+            if d["kind"] != "VarDecl" or (d.get("type") or "") != "double" or not kids(d):
+                continue
+            ws = [(k_, n_) for l, r_, k_, n_ in inv.stores(f) if strip(l, casts=True).get("ref", {}).get("id") == d["id"]]
+            if not ws or any(k_ != "=" for k_, n_ in ws):
+                continue
+            guarded_in_loop = all(inv.in_loop(f, n_) and any(a["kind"] == "IfStmt" for a in inv.enclosing_chain(f, n_))
+                                  for k_, n_ in ws)
+            if not guarded_in_loop:
+                continue
+            used_later = any(y["kind"] == "DeclRefExpr" and y["ref"]["id"] == d["id"] and not inv.in_loop(f, y)
+                             for y in walk(f.body))
+            if not used_later:
+                continue
+            ini = strip(kids(d)[0], casts=True)
+            r8.instance("%s: %s starts from %s" % (f.name, d["name"], render(ini)))
+            if ini["kind"] in ("FloatingLiteral", "IntegerLiteral"):
+                rep.finding(r8, f.name, "placeholder:" + d["name"], "%s: '%s' starts from the literal %s and is only assigned when "
+                            "the search loop finds its interval; when it does not (a single sample, or the first sample already "
+                            "holds more than the sought share of the total weight) the literal is reported, a value outside "
+                            "the data range" % (f.name, d["name"], render(ini)), where=m.rel(loc(d)))
+                r8.fail()
+            else:
+                r8.ok()
+
+    # R-C18-9 ------------------------------------------------------------
+    r9 = rep.rule("R-C18-9", "the array-median helper indexes inside [0, n-1] for every n >= 1 of either parity, and every call "
+                  "passes a length that is provably >= 1 (lengths derived from the sample count by halving are evaluated per "
+                  "parity; obligations decided by Fourier-Motzkin elimination)", floor=5)
+    from ..engines.induct import Poly, Facts
+    dm = m.need("data_array_median")
+    nn, vv = dm.params[0]["name"], dm.params[1]["name"]
+
+    def ev_len(cx_, node, sym, parity):
+        """value of an unsigned expression over `sym` = 2k + parity, as Poly in k; None if not understood"""
+        n_ = cx_.resolve(node) if cx_ is not None else strip(node, casts=True)
+        n_ = strip(n_, casts=True)
+        k_ = n_["kind"]
+        if k_ == "IntegerLiteral":
+            return Poly.const(int(n_["value"]))
+        if k_ in ("DeclRefExpr", "MemberExpr"):
+            if sym(n_):
+                return Poly.sym("k").scale(2) + Poly.const(parity)
+            return None
+        if k_ == "BinaryOperator":
+            a_, b_ = ev_len(cx_, kids(n_)[0], sym, parity), ev_len(cx_, kids(n_)[1], sym, parity)
+            if a_ is None or b_ is None:
+                return None
+            op = n_["opcode"]
+            if op == "+":
+                return a_ + b_
+            if op == "-":
+                return a_ - b_
+            if op == "/" and b_.is_const() and b_.get((), 0) == 2:
+                # floor((2k + p + 2c)/2): coefficients of k even, constant floored
+                if all(v_.denominator == 1 and int(v_) % 2 == 0 for kk, v_ in a_.items() if kk != ()):
+                    c0 = a_.get((), 0)
+                    out = Poly()
+                    for kk, v_ in a_.items():
+                        if kk != ():
+                            out[kk] = v_ / 2
+                    return out + Poly.const(int(c0) // 2)
+                return None
+        return None
+
+    # inside the helper
+    for parity in (0, 1):
+        base = Facts().add_le0(Poly.sym("k").scale(-1), "k >= 0")
+        n_poly = Poly.sym("k").scale(2) + Poly.const(parity)
+        base = base.add_le0(Poly.const(1) - n_poly, "n >= 1")
+        for x in walk(dm.body):
+            if x["kind"] != "ArraySubscriptExpr" or render(strip(kids(x)[0], casts=True)) != vv or is_assert_stmt_anc(dm, x):
+                continue
+            conds = [render(kids(a)[0]) for a in inv.enclosing_chain(dm, x) if a["kind"] == "IfStmt"]
+            chain = [a for a in inv.enclosing_chain(dm, x) if a["kind"] == "IfStmt"]
+            feasible = True
+            for a in chain:
+                c_ = _norm(render(kids(a)[0]))
+                in_then = any(y is x for y in walk(kids(a)[1]))
+                if c_ in ("%s%%2==0" % nn,):
+                    feasible = feasible and ((parity == 0) == in_then)
+                elif c_ in ("%s%%2!=0" % nn, "%s%%2==1" % nn, "%s%%2" % nn):
+                    feasible = feasible and ((parity == 1) == in_then)
+                else:
+                    raise AnalysisBroken("data_array_median: branch condition %s not understood" % c_)
+            if not feasible:
+                continue
+            idx = ev_len(None, kids(x)[1], lambda n_: n_["kind"] == "DeclRefExpr" and n_["ref"]["name"] == nn, parity)
+            if idx is None:
+                raise AnalysisBroken("data_array_median: index %s not understood" % render(kids(x)[1]))
+            lo = base.proves_le0(idx.scale(-1))
+            hi = base.proves_le0(idx + Poly.const(1) - n_poly)
+            r9.instance("helper, n %s: %s[%s] = object %s" % ("even" if parity == 0 else "odd", vv, render(kids(x)[1]), idx.show()))
+            if not (lo and hi):
+                rep.finding(r9, dm.name, "median:index", "%s[%s] is outside [0, n-1] for some %s n >= 1" %
+                            (vv, render(kids(x)[1]), "even" if parity == 0 else "odd"), where=m.rel(loc(x)))
+                r9.fail()
+            else:
+                r9.ok()
+    # call sites
+    for f, c in inv.calls_to(m, "data_array_median"):
+        cx = FuncCtx(m, f)
+        is_count = lambda n_: n_["kind"] == "MemberExpr" and n_.get("name") == "count"
+        chain = [a for a in inv.enclosing_chain(f, c) if a["kind"] == "IfStmt"]
+        nodata_guard = any(re.fullmatch(r"\(\S+(->|\.)xa != NULL\)", cx.canon(kids(a)[0])) and any(y is c for y in walk(kids(a)[1]))
+                           for a in chain)
+        proved = True
+        detail = []
+        for parity in (0, 1):
+            feasible = True
+            facts = Facts().add_le0(Poly.sym("k").scale(-1), "k >= 0")
+            if nodata_guard:
+                facts = facts.add_le0(Poly.const(1) - (Poly.sym("k").scale(2) + Poly.const(parity)), "count >= 1 (there are data)")
+            for a in chain:
+                c_ = _norm(cx.canon(kids(a)[0]))
+                in_then = any(y is c for y in walk(kids(a)[1]))
+                mm = re.fullmatch(r"\S+(->|\.)count%2==0", c_)
+                if mm:
+                    feasible = feasible and ((parity == 0) == in_then)
+                    continue
+                # length guards such as (lhsz > 0) / (count > 1)
+                cn = strip(kids(a)[0])
+                if cn["kind"] == "BinaryOperator" and cn.get("opcode") in (">", ">=", "<", "<=", "==", "!="):
+                    l_, r__ = ev_len(cx, kids(cn)[0], is_count, parity), ev_len(cx, kids(cn)[1], is_count, parity)
+                    if l_ is not None and r__ is not None:
+                        op = cn["opcode"]
+                        if not in_then:
+                            op = {"<": ">=", "<=": ">", ">": "<=", ">=": "<", "==": "!=", "!=": "=="}[op]
+                        d_ = l_ - r__
+                        if op == ">":
+                            facts = facts.add_le0(Poly.const(1) - d_, render(cn))
+                        elif op == ">=":
+                            facts = facts.add_le0(d_.scale(-1), render(cn))
+                        elif op == "<":
+                            facts = facts.add_le0(d_ + Poly.const(1), "not " + render(cn))
+                        elif op == "<=":
+                            facts = facts.add_le0(d_, "not " + render(cn))
+            # a conditional expression guarding the call: (len > 0) ? median(len, ...) : other
+            for a in inv.enclosing_chain(f, c):
+                if a["kind"] == "ConditionalOperator" and any(y is c for y in walk(kids(a)[1])):
+                    cn = strip(kids(a)[0])
+                    if cn["kind"] == "BinaryOperator" and cn.get("opcode") in (">", ">=", "!="):
+                        l_, r__ = ev_len(cx, kids(cn)[0], is_count, parity), ev_len(cx, kids(cn)[1], is_count, parity)
+                        if l_ is not None and r__ is not None:
+                            d_ = l_ - r__
+                            if cn["opcode"] in (">", "!="):
+                                facts = facts.add_le0(Poly.const(1) - d_, render(cn))
+                            else:
+                                facts = facts.add_le0(d_.scale(-1), render(cn))
+            if not feasible or not facts.feasible():
+                continue
+            ln = ev_len(cx, kids(c)[1], is_count, parity)
+            if ln is None:
+                raise AnalysisBroken("%s: length argument %s of data_array_median not understood" % (f.name, render(kids(c)[1])))
+            okp = facts.proves_le0(Poly.const(1) - ln)
+            detail.append("%s count: length %s %s" % ("even" if parity == 0 else "odd", ln.show(), "ok" if okp else "can be 0"))
+            proved = proved and okp
+        r9.instance("%s: data_array_median(%s, ...): %s" % (f.name, render(kids(c)[1]), "; ".join(detail)))
+        rep.sample({"rule": "R-C18-9", "function": f.name, "length": render(kids(c)[1]), "cases": detail})
+        if not proved:
+            rep.finding(r9, f.name, "median:empty-half:" + _norm(render(kids(c)[1])), "%s calls data_array_median(%s, ...) with a "
+                        "length that can be 0 (%s): the helper then reads element n/2 - 1 = -1 (as unsigned: far outside the "
+                        "array). Happens for a dataset with one sample." % (f.name, render(kids(c)[1]), "; ".join(detail)),
+                        where=m.rel(loc(c)))
+            r9.fail()
+        else:
+            r9.ok()
+
+
 def run(tier="quick"):
     models = common.load_models(tier)
     rep = Report(PID, tier, models[0])
